@@ -159,7 +159,7 @@ Definition scroll_up (cfg : vtcfg) (v : vt) : vt :=
 
 (* move to column 0 of the next row, scrolling at the bottom *)
 Definition next_line (cfg : vtcfg) (v : vt) : vt :=
-  let '(x, y) := vcur v in
+  let y := snd (vcur v) in
   if y + 1 <? snd (vsize v) then set_vcur v (0, y + 1)
   else set_vcur (scroll_up cfg v) (0, y).
 
@@ -261,7 +261,8 @@ Definition vt_csi (cfg : vtcfg) (v : vt) (priv : bool) (ps : list N) (f : byte) 
     | _ => flag_unknown v
     end
   else
-    let '(x, y) := vcur v in
+    let x := fst (vcur v) in
+    let y := snd (vcur v) in
     match f with
     | 72 => (* CUP *)
         if Nat.leb (length ps) 2
